@@ -1,4 +1,6 @@
 \* generated by the harness (quick tier constants); the checks generate their configs themselves
+\* must-fail sensitivity variant: the .mmn writer as it is (MmnWriterBkvec = FALSE, known finding) and the .eig/.amn defects
+\* repaired in 4825d857 (WriterIndexing = "tuple", LoadtxtSqueeze = TRUE)
 SPECIFICATION FSpec
 CONSTANTS
   WriterIndexing = "tuple"
